@@ -513,6 +513,17 @@ def probes() -> List[Tuple[str, Dict[str, Any]]]:
         if n["hostname"] == "router_1":
             n["default_route"] = {"next_hop_ip_address": "192.168.1.2"}
     out.append(("probe/wireless_router_default_route", c))
+    # one setting declared at two levels: the node's dns_server and the dns-client service's own dns_server option (the
+    # option of the service is the more specific declaration; a node with only one of the two uses that one)
+    for which in ("both_differ", "node_only", "service_only"):
+        c = scenarios.switched(3)
+        for n in c["simulation"]["network"]["nodes"]:
+            if n["hostname"] == "b":
+                if which != "service_only":
+                    n["dns_server"] = "192.168.1.2"
+                if which != "node_only":
+                    n["services"] = [{"type": "dns-client", "options": {"dns_server": "192.168.1.4"}}]
+        out.append((f"probe/dns_server_declared_{which}", c))
     # primary / backup routes: several routes to ONE destination (same address and mask, different next hop and metric),
     # in both orders, on every node type that has a route table
     for order in (0, 1):
